@@ -7,6 +7,7 @@ package main
 import (
 	"crypto/sha1"
 	"fmt"
+	"sort"
 	"strings"
 
 	dtpb "github.com/google/fhir/go/proto/google/fhir/proto/r4/core/datatypes_go_proto"
@@ -14,7 +15,10 @@ import (
 	"github.com/verily-src/fhirpath-go/fhirpath/evalopts"
 	"github.com/verily-src/fhirpath-go/fhirpath/system"
 	"github.com/verily-src/fhirpath-go/internal/fhir"
+	apb "github.com/google/fhir/go/proto/google/fhir/proto/annotations_go_proto"
 	"google.golang.org/protobuf/proto"
+	"google.golang.org/protobuf/reflect/protoreflect"
+	"google.golang.org/protobuf/reflect/protoregistry"
 )
 
 func init() { props["C05"] = runC05 }
@@ -64,6 +68,10 @@ func buildPool(c *Ctx, input []fhir.Resource) []poolItem {
 		"@2020-01-01T10:00:00.000+00:00", "@2020-01-01T04:30:00-05:30", "@2020-01-01T11",
 		"@T10", "@T10:00", "@T10:00:00", "@T10:00:00.000", "@T10:30", "@T09", "@T10:00:00.500", "@T11:00", "@T10:00:00.0001", "@T10:00:00.000100", "@T10:00:00.0005", "@2020-01-01T10:00:00.0001Z", "@2020-01-01T10:00:00.000100Z",
 		"1 'mg'", "1.0 'mg'", "2 'mg'", "1 'kg'", "1 year", "1 'a'", "12 months", "1 day", "1 days", "0 'mg'",
+		// units are case sensitive (mg / Mg are milligram and megagram)
+		"1 'Mg'", "2 'Mg'", "1 'MG'", "1 'm'", "1 'M'",
+		// strings are ordered by code point: private-use / fullwidth characters (U+E000..U+FFFF) come before the supplementary planes
+		"'x\uFF21'", "'x\U0001F600'", "'\uFFFD'", "'\uE000'", "'\U00010000'", "'x'", "'\uD7FF'",
 	}
 	for _, src := range lits {
 		o := compileEval(src, input)
@@ -121,6 +129,7 @@ func runC05(c *Ctx) {
 	for _, p := range pool {
 		c.Count("pool:" + p.kind)
 	}
+	runC05Codes(c, input)
 	// a FHIR primitive element denotes the value of its JSON text: compared with the literal of that
 	// text it is equal (and neither less nor greater)
 	elemLiteral := map[string]string{
@@ -330,4 +339,55 @@ func runC05(c *Ctx) {
 			c.Law(res["="] == "ok:f", "C05/collection-length", "collections of different length are not equal", desc(l)+" = "+desc(r), res["="])
 		}
 	}
+}
+
+// runC05Codes: every enumerated code element compares as its FHIR code with the String literal of that
+// code — exhaustive over every enum-valued code type of the R4 protos.
+func runC05Codes(c *Ctx, input []fhir.Resource) {
+	var codeTypes []protoreflect.MessageType
+	protoregistry.GlobalTypes.RangeMessages(func(mt protoreflect.MessageType) bool {
+		d := mt.Descriptor()
+		if strings.HasPrefix(string(d.FullName()), "google.fhir.r4.core.") {
+			if f := d.Fields().ByName("value"); f != nil && f.Kind() == protoreflect.EnumKind {
+				codeTypes = append(codeTypes, mt)
+			}
+		}
+		return true
+	})
+	sort.Slice(codeTypes, func(i, j int) bool { return codeTypes[i].Descriptor().FullName() < codeTypes[j].Descriptor().FullName() })
+	eq := fhirpath.MustCompile("%x = %s")
+	ne := fhirpath.MustCompile("%x != %s")
+	le := fhirpath.MustCompile("%x <= %s and %x >= %s and (%x < %s).not() and (%x > %s).not()")
+	n := 0
+	for ti, mt := range codeTypes {
+		f := mt.Descriptor().Fields().ByName("value")
+		vals := f.Enum().Values()
+		for i := 0; i < vals.Len(); i++ {
+			ev := vals.Get(i)
+			if ev.Number() == 0 {
+				continue
+			}
+			// quick tier: codes with two or more separators everywhere, the others on a rotating sample of types
+			many := strings.Count(string(ev.Name()), "_") >= 2
+			if !c.thorough && !many && (ti+int(c.seed))%8 != 0 {
+				continue
+			}
+			msg := mt.New()
+			msg.Set(f, protoreflect.ValueOfEnum(ev.Number()))
+			want := strings.ReplaceAll(strings.ToLower(string(ev.Name())), "_", "-")
+			if orig, _ := proto.GetExtension(ev.Options(), apb.E_FhirOriginalCode).(string); orig != "" {
+				want = orig
+			}
+			n++
+			for name, e := range map[string]*fhirpath.Expression{"=": eq, "!=": ne, "order": le} {
+				o := safeEval(func() (system.Collection, error) {
+					return e.Evaluate(input, evalopts.EnvVariable("x", msg.Interface()), evalopts.EnvVariable("s", system.String(want)))
+				})
+				wantB := name != "!="
+				ok := !o.Panicked && o.Err == nil && len(o.Coll) == 1 && o.Coll[0] == system.Boolean(wantB)
+				c.Law(ok, "C05/element-literal", "a FHIR primitive element compares as the value of its JSON text", fmt.Sprintf("%%x %s '%s' with %%x = %s %s", name, want, mt.Descriptor().FullName(), ev.Name()), canonOutcome(o, nil))
+			}
+		}
+	}
+	c.Observe(fmt.Sprintf("enumerated codes compared with their literal: %d values of %d code types", n, len(codeTypes)), true)
 }
